@@ -476,18 +476,20 @@ static void be_case(Toks& tk, Out& out, std::size_t ncells, std::size_t nspec)
       sp.nonzero_jacobian_elements_.insert({ i, j });
   sp.absolute_tolerance_ = atol;
   sp.relative_tolerance_ = rtol;
-  StateT state(sp);
-  state.temporary_variables_ = std::make_unique<micm::BackwardEulerTemporaryVariables<DM>>(sp);
+  StateT prepared(sp);
+  prepared.temporary_variables_ = std::make_unique<micm::BackwardEulerTemporaryVariables<DM>>(sp);
   for (std::size_t c = 0; c < ncells; ++c)
     for (std::size_t s = 0; s < nspec; ++s)
-      state.variables_[c][s] = y0[c * nspec + s];
-  for (auto& e : state.jacobian_.AsVector())
+      prepared.variables_[c][s] = y0[c * nspec + s];
+  for (auto& e : prepared.jacobian_.AsVector())
     e = 12345.0;
-  auto* tmp = static_cast<micm::BackwardEulerTemporaryVariables<DM>*>(state.temporary_variables_.get());
+  auto* tmp = static_cast<micm::BackwardEulerTemporaryVariables<DM>*>(prepared.temporary_variables_.get());
   for (auto& e : tmp->Yn_.AsVector())
     e = -777.0;
   for (auto& e : tmp->forcing_.AsVector())
     e = 555.0;
+  // as for the Rosenbrock cases: the State solved is a copy (odd cases) or a moved-to object (even cases)
+  StateT state = ((ncells + nspec) % 2 == 1) ? StateT(prepared) : StateT(std::move(prepared));
   micm::BackwardEuler<mocks::MockRates, LS> solver(LS{ sh }, mocks::MockRates{ sh }, state.jacobian_, nspec);
   auto result = solver.Solve(time_step, state, params);
   out_result(result, out);
